@@ -24,7 +24,7 @@ open("coq/_CoqProject", "w").write("\n".join(out) + "\n")
 ours = json.loads(sh("git", "show", "HEAD:known_findings.json"))
 theirs = json.loads(sh("git", "show", f"{branch}:known_findings.json"))
 keys = {(f["property"], f["signature"]): i for i, f in enumerate(ours["findings"])}
-own = branch.upper()
+own = branch.upper().split("-")[0]
 for f in theirs["findings"]:
     k = (f["property"], f["signature"])
     if k not in keys:
